@@ -11,6 +11,7 @@ pub mod c04;
 pub mod c05;
 pub mod c10;
 pub mod hsworld;
+pub mod soup;
 pub mod c06;
 pub mod c07;
 pub mod c08;
